@@ -17,6 +17,7 @@ import (
 	"sort"
 	"strings"
 	"sync"
+	"time"
 
 	"wvh/hlib"
 )
@@ -52,6 +53,7 @@ func (h *harness) fatal(what string, err error) {
 
 func (h *harness) run() {
 	r := h.r
+	tstart := time.Now()
 	sb, err := hlib.GenStd(r.Repo)
 	if err != nil {
 		// the generated C cannot be produced from the working tree: correspondence is broken
@@ -123,21 +125,23 @@ func (h *harness) run() {
 
 	// ---- flavours
 	opt := "-O2"
+	cc := "clang" // quick: clang compiles the snapshot twice as fast as gcc; thorough adds gcc builds
+	nopie := []string{"-fno-pie", "-no-pie"} // fixed addresses: pointer fields comparable across processes
 	h.fl = []*flavour{
-		{name: "default", compiler: "gcc", flags: []string{opt, "-DC09_STRUCTS_INC=\"" + stdInc + "\""}},
-		{name: "noarch", compiler: "gcc", flags: []string{opt, "-DWUFFS_CONFIG__AVOID_CPU_ARCH"}},
+		{name: "default", compiler: cc, flags: append([]string{opt, "-DC09_STRUCTS_INC=\"" + stdInc + "\""}, nopie...)},
+		{name: "noarch", compiler: cc, flags: append([]string{opt, "-DWUFFS_CONFIG__AVOID_CPU_ARCH"}, nopie...)},
 	}
 	if r.Thorough {
 		if famOK {
 			h.fl = append(h.fl,
-				&flavour{name: "nov3", compiler: "gcc", flags: []string{opt, "-DC09_NO_V3"}},
-				&flavour{name: "nov2", compiler: "gcc", flags: []string{opt, "-DC09_NO_V2"}})
+				&flavour{name: "nov3", compiler: cc, flags: []string{opt, "-DC09_NO_V3"}},
+				&flavour{name: "nov2", compiler: cc, flags: []string{opt, "-DC09_NO_V2"}})
 		} else {
 			r.Count("skipped:family-flavours(define block not found)")
 		}
 		h.fl = append(h.fl,
-			&flavour{name: "clang", compiler: "clang", flags: []string{"-O2"}},
-			&flavour{name: "clangnoarch", compiler: "clang", flags: []string{"-O2", "-DWUFFS_CONFIG__AVOID_CPU_ARCH"}},
+			&flavour{name: "gcc", compiler: "gcc", flags: []string{"-O2"}},
+			&flavour{name: "gccnoarch", compiler: "gcc", flags: []string{"-O2", "-DWUFFS_CONFIG__AVOID_CPU_ARCH"}},
 			&flavour{name: "vg", compiler: "gcc", flags: []string{"-O1", "-g"}})
 	}
 	pflags := func(extra ...string) []string {
@@ -153,6 +157,7 @@ func (h *harness) run() {
 			&flavour{name: "p_nov2", compiler: "clang", flags: pflags("-DC09_NO_V2")},
 			&flavour{name: "p_nov2v3", compiler: "clang", flags: pflags("-DC09_NO_V2", "-DC09_NO_V3")})
 	}
+	tb := time.Now()
 	var wg sync.WaitGroup
 	wg.Add(2)
 	go func() { defer wg.Done(); buildFlavours(dir, patched, h.fl) }()
@@ -163,6 +168,7 @@ func (h *harness) run() {
 		buildFlavours(pdir, probeAll, h.probeFl)
 	}()
 	wg.Wait()
+	r.Note(fmt.Sprintf("time builds: %.1fs (after genstd+probes %.1fs)", time.Since(tb).Seconds(), tb.Sub(tstart).Seconds()))
 	for _, f := range append(append([]*flavour{}, h.fl...), h.probeFl...) {
 		if f.err != nil {
 			r.Fail("setup:build:"+f.name, "compiling the regenerated C failed: "+firstLine(f.err.Error()), f.err.Error())
@@ -191,13 +197,24 @@ func (h *harness) run() {
 		r.Note("flavour " + f.name + ": " + info)
 	}
 
+	t0 := time.Now()
+	lap := func(what string) {
+		r.Note(fmt.Sprintf("time %s: %.1fs", what, time.Since(t0).Seconds()))
+		t0 = time.Now()
+	}
 	h.probeSection(probes)
+	lap("probes")
 	h.stdObjSection(stdStructs)
+	lap("std objects")
 	h.idctSection()
+	lap("idct")
 	h.hashSection()
+	lap("hash reference")
 	h.matrixSection()
+	lap("matrix")
 	if r.Thorough {
 		h.valgrindSection()
+		lap("valgrind")
 	}
 }
 
@@ -347,6 +364,10 @@ func firstPartRanges(lay map[string]*layoutInfo, typ string, base int, out *[][2
 }
 
 func (h *harness) checkDetermined(typ string, opts int, prior string, raw []string, lay map[string]*layoutInfo, tag string) {
+	if opts&1 != 0 && prior != "z" {
+		// ALREADY_ZEROED over memory that is not zero: the caller broke the contract
+		return
+	}
 	key := fmt.Sprintf("%s/%d", typ, opts&3)
 	ref, ok := determinedRef[key]
 	if !ok {
@@ -443,10 +464,13 @@ func (h *harness) stdObjSection(structs []cStruct) {
 		if li == nil {
 			continue
 		}
-		if li.size > 1<<20 && !h.r.Thorough {
+		switch {
+		case li.size > 1<<18 && !h.r.Thorough:
 			// big objects: constant priors only, two option sets
 			h.objInitOps(pl, lay, n, []int{0, 2}, []string{"c:ff", "c:a5"}, "std")
-		} else {
+		case li.size > 1<<14 && !h.r.Thorough:
+			h.objInitOps(pl, lay, n, []int{0, 1, 2}, []string{"z", "c:ff", "c:a5"}, "std")
+		default:
 			h.objInitOps(pl, lay, n, []int{0, 1, 2, 3}, []string{"z", "c:ff", "c:a5", "r:3", "q:5"}, "std")
 		}
 		h.r.Nontrivial("stdobj:" + n)
